@@ -175,7 +175,10 @@ class World:
         pool = self.case["participants"][pid]["win"]
         i = self.rand.get(("w", pid), 0)
         self.rand["w", pid] = i + 1
-        return pool[i % len(pool)]
+        # windows of participants that left (except the last one) stay
+        # reserved: after the pool, go on with fresh numbers so that the
+        # library's search for a free window ends
+        return pool[i] if i < len(pool) else 6 + (i - len(pool)) % 500
 
 
 def make_xdp(world):
